@@ -78,7 +78,7 @@ struct Rep {
     }
     size_t sz(int k) const { return info.size[k]; }
     // apply the dispatch setting this replica instance stands for (no-op when it has none)
-    void apply_dispatch() { if (want_dispatch >= 0) jv_set_dispatch(want_dispatch); }
+    void apply_dispatch() { if (want_dispatch >= 0 && jv_get_dispatch() != want_dispatch) jv_set_dispatch(want_dispatch); }
     std::string path() const { Dl_info di; if (dladdr((void*) jv_info, &di) && di.dli_fname) return di.dli_fname; return ""; }
 };
 
